@@ -7,8 +7,8 @@
      SELECT filename, COUNT( * ) ... WHERE <p> GROUP BY filename HAVING COUNT( * ) > 0   (affected files)
      SELECT COUNT( * ), COUNT( * ) FILTER (WHERE NOT (<p>)) ...                          (per-file counts)
      COPY (SELECT * ... WHERE NOT (<p>)) TO ...                                          (the rewrite)
-   so the rows that survive a rewrite are those where NOT (<p>) is TRUE.  [KeepNotPred] is
-   that code; [KeepIsNotTrue] is the proposed repair  WHERE (<p>) IS NOT TRUE.
+   so the rows that survived a rewrite were those where NOT (<p>) is TRUE: [KeepNotPred], the code up
+   to /repo 33a2304.  Since then all three sites read  (<p>) IS NOT TRUE : [KeepIsNotTrue].
 
    Values: numbers are exact quarter units (an integer n is 4n, a double literal such as 1.25
    is 5) so BIGINT/DOUBLE comparisons are exact; strings are byte lists (ASCII in the tie);
